@@ -63,6 +63,24 @@ def gen_episode(rng, long=False):
     return ops
 
 
+def pickconc_episodes(rng):
+    """round robin (and the others) with part of the pool inside an unhealthy window and many pickers at once: whatever
+    the other pickers do to the shared rotation state, a pick finds an eligible backend"""
+    eps = []
+    for strat, n, out in (("round_robin", 2, [0]), ("round_robin", 3, [1]), ("round_robin", 4, [0, 2]), ("round_robin", 6, [1, 2, 3, 4]),
+                          ("weighted_round_robin", 3, [0]), ("least_connections", 3, [2]), ("ip_hash", 3, [1]), ("ip_hash_consistent", 4, [0, 3])):
+        g = lbgen.Gen(rng, strategy=strat, passive=False, nback=n, weights=[1] * n)
+        g.advance(lbgen.SEC)
+        for i in out:
+            g.eject(name=g.names[i], dur=3600 * lbgen.SEC)
+        for _ in range(3):
+            g.request(outcome="200")
+        ops = g.finish()
+        ops.append("lb pickconc %d %d %d" % (g.t, 16, 4000))
+        eps.append(ops)
+    return eps
+
+
 def subsets_episodes(rng, full):
     """Small-scope exhaustive part: every strategy x pool size x ejected subset x rotation offset."""
     eps = []
@@ -128,7 +146,7 @@ def check(ctx):
     binary = build(ctx)
     d = C.Differential(ctx, binary)
     nep = 1500 if ctx.thorough() else 250
-    episodes = C.load_corpus(ID) + subsets_episodes(ctx.rng, ctx.thorough()) + [gen_episode(ctx.rng, ctx.thorough()) for _ in range(nep)]
+    episodes = C.load_corpus(ID) + subsets_episodes(ctx.rng, ctx.thorough()) + [gen_episode(ctx.rng, ctx.thorough()) for _ in range(nep)] + pickconc_episodes(ctx.rng)
     bad = d.check(episodes, oracle=oracle, label="lb")
     served = resp503 = with_window = 0
     nontriv = set()
